@@ -32,6 +32,20 @@ func init() {
 		// NewThrottlingChecker: the ms -> ns conversions of the queueing limit and the statistic interval
 		target{Dir: "core/flow", Func: "NewThrottlingChecker", Name: "throttling_New",
 			Fields: []string{"maxQueueingTimeNs", "statIntervalNs", "lastPassedTime"}},
+		// flow.Slot.Check: one iteration of the loop over the resource's controllers: a blocked result is returned
+		// (LReturn 1), a should-wait result with a positive wait is slept (action 1, [ns]) and the loop goes on
+		target{Dir: "core/flow", Func: "Slot.Check", Name: "flow_Slot_Check_step", LoopBody: 1,
+			RangeVars: map[string]string{"tc": "*TrafficShapingController"},
+			Hints: map[string]hint{
+				"ctx.Resource.Name()":                                  {"", "opaque"},
+				"getTrafficControllerListFor(res)":                     {"", "opaque"},
+				"ctx.RuleCheckResult":                                  {"", "opaque"},
+				"canPassCheck(tc, ctx.StatNode, ctx.Input.BatchCount)": {"", "opaque"},
+				"r.Status()":                                           {"r_status", "uint8"},
+				"r.NanosToWait()":                                      {"r_nanos", "int64"}},
+			Errs:    map[string]int{"r": 1},
+			Effects: []string{"flowWaitCount."},
+			Acts:    map[string]act{"util.Sleep": {Tag: 1, Keep: []int{0}}}},
 
 		// ---- C11: WarmUpTrafficShapingCalculator ----
 		// constructor: cold-factor default, warningToken / maxToken (uint64 truncations), slope
